@@ -179,6 +179,8 @@ def run(ctx):
     blocks_rule(ctx)
     # premature end of input on the reader path: exact reads with propagated errors (shared with C11)
     from .c11 import slice_rule, varint_rule, fixedbuf_rule
+    from .c02 import freezemap_rule
+    freezemap_rule(ctx)
     slice_rule(ctx)
     varint_rule(ctx)
     fixedbuf_rule(ctx)
